@@ -20,3 +20,5 @@ func All() []*G {
 	}
 	return pairingGroups(out, PairingSuites())
 }
+
+func Extra() []*G { return nil }
